@@ -58,14 +58,16 @@ type caseSpec struct {
 	// but the last schema upload of every file first, then those schema uploads in seeded order.
 	Interleave string `json:"interleave,omitempty"`
 	// Removes: client removes inside the live history (on the first file):
-	// chunk-before-schema-reupload | chunk-before-schema | after-pack.
+	// chunk-before-schema-reupload | chunk-before-schema | after-pack | after-pack-no-reupload |
+	// after-pack-all.
 	Removes string `json:"removes,omitempty"`
 	// Crash: "" = every lower call is a crash point; "pack-writes" = only the writes of a pack
 	// (for files whose full enumeration would not fit the budget).
 	Crash string `json:"crash,omitempty"`
 	// LiveAudit: "" = after every lower write of run A; "pack-writes" = after the writes of a pack only.
 	LiveAudit string `json:"live_audit,omitempty"`
-	// Lower: "" = memory small/large/meta; "disk" = localdisk small, localdisk large, leveldb meta.
+	// Lower: "" = memory small/large/meta; "disk" = localdisk small, localdisk large, leveldb
+	// meta; "diskpacked" = localdisk small, diskpacked large, leveldb meta.
 	Lower string `json:"lower,omitempty"`
 	Loose  int        `json:"loose"`             // loose non-file blobs uploaded around the file
 	Seed   int64      `json:"seed"`
@@ -335,6 +337,17 @@ func buildWorld(cs caseSpec) (*world, error) {
 					}
 				}
 				tail = append(tail, upload{Remove: rm}, upload{Blob: c}, upload{Blob: sch})
+			case "after-pack-no-reupload":
+				// a packed chunk is removed for good (unless a later file brings it again)
+				tail = append(tail, upload{Remove: []int{c}})
+			case "after-pack-all":
+				// every blob of the packed file is removed, then the client uploads the file again
+				rm := append(append([]int{}, idx...), sch)
+				tail = append(tail, upload{Remove: rm})
+				re := append([]int{}, idx...)
+				rng.Shuffle(len(re), func(i, j int) { re[i], re[j] = re[j], re[i] })
+				tail = append(tail, up(re...)...)
+				tail = append(tail, upload{Blob: sch})
 			default:
 				return nil, fmt.Errorf("unknown removes %q", cs.Removes)
 			}
